@@ -555,6 +555,18 @@ impl MarkerExpression {
     }
 }
 
+/// Quotes a marker string value: single quotes, unless the value contains one.
+///
+/// Marker strings have no escapes; a value that was parsed from a quoted string never
+/// contains the quote character it was written with, so one of the two always works.
+fn quoted(value: &str) -> String {
+    if value.contains('\'') {
+        format!("\"{value}\"")
+    } else {
+        format!("'{value}'")
+    }
+}
+
 impl Display for MarkerExpression {
     fn fmt(&self, f: &mut Formatter<'_>) -> std::fmt::Result {
         match self {
@@ -584,13 +596,13 @@ impl Display for MarkerExpression {
                     operator,
                     MarkerOperator::Contains | MarkerOperator::NotContains
                 ) {
-                    return write!(f, "'{value}' {} {key}", operator.invert());
+                    return write!(f, "{} {} {key}", quoted(value), operator.invert());
                 }
 
-                write!(f, "{key} {operator} '{value}'")
+                write!(f, "{key} {operator} {}", quoted(value))
             }
             MarkerExpression::Extra { operator, name } => {
-                write!(f, "extra {operator} '{name}'")
+                write!(f, "extra {operator} {}", quoted(&name.to_string()))
             }
         }
     }
